@@ -1,7 +1,61 @@
 (** Pins for C03: the statements written out, so that no theorem is weakened quietly. *)
-From TucModel Require Import Base.Bytes Base.ListX Model.Bounds Model.Scan Model.Opt Model.CutBytes
-     Model.CutStr Model.FastLane Model.Stream Proofs.C04 Proofs.C03 Properties.C03.
+From TucModel Require Import Base.Bytes Base.ListX Model.Bounds Model.BoundsParse Model.Scan Model.Opt
+     Model.CutBytes Model.CutStr Model.FastLane Model.Stream Spec.Fields Proofs.BoundsFacts Proofs.C06
+     Proofs.C04 Proofs.C03 Proofs.Plain Proofs.C03Full Properties.C03.
 Local Open Scope Z_scope.
+
+Check C03_fixed_memory_equals_line_mode :
+  forall (o : opt) (so : sopt) (l0 : list bof) (input : bytes),
+    from_vec l0 = Some (o_bounds o) ->
+    Forall item_nz l0 -> Forall closed_ordered (bounds_only l0) -> no_adjacent_fillers l0 ->
+    stream_opt o = Some so -> N.eqb (s_delim so) (s_eol so) = false ->
+    Forall (fun r => r = [] \/ no_straddle (Z.of_nat (length (split_on (s_delim so) r))) (items (o_bounds o)))
+           (records (s_eol so) input) ->
+    Some (run_stream_whole so input) = read_and_cut_str o input.
+Print Assumptions C03_fixed_memory_equals_line_mode.
+
+Check C03_each_record :
+  forall (o : opt) (so : sopt) (r rest : bytes) (cs : list bytes),
+    stream_opt o = Some so ->
+    Forall item_nz (items (o_bounds o)) ->
+    no_adjacent_fillers (items (o_bounds o)) -> bounds_only (items (o_bounds o)) <> [] ->
+    r <> [] -> bfree (s_eol so) r -> N.eqb (s_delim so) (s_eol so) = false ->
+    asc 0 (Z.of_nat (length (split_on (s_delim so) r))) (items (o_bounds o)) ->
+    rec_chunks so (Normal (s_items so) 1 false) false ((r ++ s_eol so :: rest) :: cs) []
+    = match cut_str o r with
+      | Some (ROk x) => RRecord x (push_rest rest cs)
+      | _ => RFail
+      end.
+Print Assumptions C03_each_record.
+
+Check C03_final_record_without_eol :
+  forall (so : sopt) (r : bytes) (its : list bof) (curr : Z) (out : bytes) (started : bool),
+    r <> [] -> bfree (s_eol so) r -> no_adjacent_fillers its -> 1 <= curr ->
+    rec_chunks so (Normal its curr false) started [r] out
+    = match rec_chunks so (Normal its curr false) started [r ++ [s_eol so]] out with
+      | RRecord x _ => RLast x
+      | other => other
+      end.
+Print Assumptions C03_final_record_without_eol.
+
+Check C03_domain_is_only_about_the_input :
+  forall (n : Z) (its : list bof),
+    forward_bounds_ok its = true -> Forall item_nz its ->
+    Forall closed_ordered (bounds_only its) ->
+    Forall (fun b => br b = SCont -> blast b = true) (bounds_only its) ->
+    no_straddle n its -> asc 0 n its.
+Print Assumptions C03_domain_is_only_about_the_input.
+
+Check C03_reference_prints_the_requested_fields :
+  forall (o : opt) (d : byte) (line : bytes),
+    plain_opts o d -> o_trim o = None -> o_only_delimited o = false ->
+    line <> [] -> Forall item_nz (items (o_bounds o)) ->
+    cut_str o line
+    = Some (match spec_items (split_on d line) (o_fallback o) (o_join o) (rep_of o d) (items (o_bounds o)) with
+            | Some x => ROk (x ++ [o_eol o])
+            | None => RErr
+            end).
+Print Assumptions C03_reference_prints_the_requested_fields.
 
 Check C03_reference_path_is_well_defined :
   forall (o : opt) (so : sopt), stream_opt o = Some so ->
